@@ -7,3 +7,13 @@ claim("C05", "proof",
       "Assumes floats are reals (A1), positive homogeneity of float % (instances), tables are arbitrary positive tables "
       "(SI values are C06.b). Trusted: the proxy/shim layer (conformance-tested against the untouched code each run), z3/cvc5.",
       "deductive: symbolic execution of real source + SMT (z3, cvc5)", "DESIGN.md 3/C05")
+claim("C06", "proof",
+      "convert_unitvalue / UnitValue.convert / UnitArray.convert / convert_value / compute_conversion_factor are executed "
+      "symbolically on fully symbolic quantities and targets (Units, UnitValue, UnitsSystem, dict forms; scalar and "
+      "symbolic-length arrays): value = q*PROD (src/dst)^dim, dimension and target system, raises-iff-other-dimension, and "
+      "identity / there-and-back / composition of real conversions are SMT obligations for all inputs. The 31 table "
+      "entries, Avogadro's number, the 16 derived symbols at exponents -9..9 and the u-spellings are checked exhaustively "
+      "against an independent SI table on the untouched module.",
+      "A1: exact equality over the reals, the 1e-12 rounding bound itself is not proved. String targets are covered by "
+      "C18's parser contract. Trusted: proxy/shim layer, z3/cvc5.",
+      "deductive: symbolic execution of real source + SMT; finite exhaustive table check", "DESIGN.md 3/C06")
